@@ -37,6 +37,12 @@ ILL = [
     # general contractions running from core to valence exponents (the tightest primitive hides behind a diffuse one)
     ("ss|ff core-to-valence contraction", [(0, [1.457e5, 2.2e3, 31.0, 0.1737]), (0, [1.457e5, 2.2e3, 31.0, 0.1737])], [(3, [0.25]), (3, [0.25])]),
     ("sp|dd core-to-valence contraction", [(0, [8.2e4, 1.2e3, 20.0, 0.12]), (1, [9.4e3, 95.0, 0.9, 0.11])], [(2, [0.12]), (2, [0.3])]),
+    # the tight pair carries at least as much angular momentum as the diffuse one: the transfer must run from the
+    # diffuse to the tight pair although both directions move the same number of units
+    ("dd|dd 1e3/0.02", [(2, [1e3]), (2, [1e3])], [(2, [0.02]), (2, [0.02])]),
+    ("ff|ff 100/0.05", [(3, [100.0]), (3, [100.0])], [(3, [0.05]), (3, [0.05])]),
+    ("pd|pp 1e4,1e3/0.02", [(1, [1e4]), (2, [1e3])], [(1, [0.02]), (1, [0.02])]),
+    ("pp|pp 1e4/0.02", [(1, [1e4]), (1, [1e4])], [(1, [0.02]), (1, [0.02])]),
 ]
 
 
@@ -73,6 +79,39 @@ def amp_total(shells):
     hr = bra["l2"] * float(np.log(max(1.0, bra["dist"] * np.sqrt(bra["pmax"])))) + ket["l2"] * float(np.log(max(1.0, ket["dist"] * np.sqrt(ket["pmax"]))))
     a_et = min(et(bra, ket), et(ket, bra))
     return a_et + hr, a_et, hr
+
+
+def policy_block(shells, gb):
+    """The shell-quartet block as the library's own primitive-level kernel gives it when called in the orientation the
+    DOCUMENTED policy selects (transfer recursion from the pair with the smaller amplification estimate, ties keep the
+    given order; within each pair the shell with the larger maximal exponent first, ties keep the given order).
+
+    Used only by the classifiers: the recorded finding "recursion amplification" is the error that REMAINS under that
+    policy. A library result that is much worse than this block is some other defect (an orientation rule lost or
+    misapplied) and must not be filed under the recorded mechanism. Returns the block with axes (M1, L1, ..., M4, L4)
+    of the shells in the given order, not normalised; None when the kernel cannot be called this way."""
+    try:
+        from gbasis.integrals._two_elec_int import _compute_two_elec_integrals, _compute_two_elec_integrals_angmom_zero
+        from gbasis.integrals.electron_repulsion import ElectronRepulsionIntegral as E
+
+        order = [0, 1, 2, 3]
+        if amp([shells[2], shells[3]], [shells[0], shells[1]]) < amp([shells[0], shells[1]], [shells[2], shells[3]]):
+            order = [2, 3, 0, 1]
+        if max(shells[order[1]]["e"]) > max(shells[order[0]]["e"]):
+            order[0], order[1] = order[1], order[0]
+        if max(shells[order[3]]["e"]) > max(shells[order[2]]["e"]):
+            order[2], order[3] = order[3], order[2]
+        c = [gb[k] for k in order]
+        with np.errstate(all="ignore"):
+            if all(x.angmom == 0 for x in c):
+                raw = _compute_two_elec_integrals_angmom_zero(E.boys_func, *[y for x in c for y in (x.coord, x.exps, x.coeffs)])
+            else:
+                raw = _compute_two_elec_integrals(E.boys_func, *[y for x in c for y in (x.coord, x.angmom, x.angmom_components_cart, x.exps, x.coeffs)])
+        out = np.transpose(raw, (4, 0, 5, 1, 6, 2, 7, 3))  # axis pair j belongs to shell order[j]
+        inv = [order.index(k) for k in range(4)]
+        return np.transpose(out, [x for k in inv for x in (2 * k, 2 * k + 1)])
+    except Exception:  # noqa: BLE001 -- a refactored kernel: the classifier falls back to the envelope alone
+        return None
 
 
 def _mk(l, exps, rng, center):
@@ -192,7 +231,8 @@ def gen_cases(tier, seed):
         t = [_mk(l, e, rng, cen[0]) for l, e in bra]
         d = [_mk(l, e, rng, cen[2]) for l, e in ket]
         for arr_name, order in (("(tt|dd)", [t[0], t[1], d[0], d[1]]), ("(dd|tt)", [d[0], d[1], t[0], t[1]]),
-                                ("(td|td)", [t[0], d[0], t[1], d[1]]), ("(td|dt)", [t[0], d[0], d[1], t[1]])):
+                                ("(td|td)", [t[0], d[0], t[1], d[1]]), ("(td|dt)", [t[0], d[0], d[1], t[1]]),
+                                ("(dt|td)", [d[0], t[0], t[1], d[1]]), ("(dt|dt)", [d[0], t[0], d[1], t[1]])):
             cases.append({"kind": "kernel", "shells": [dict(s) for s in order], "classes": ["ill:" + name, "arr:" + arr_name], "cost": 400})
     # whole-basis calls
     nw = 16 if tier == "quick" else 240
@@ -301,6 +341,17 @@ def run_case(case):
                     shp[2 * ax], shp[2 * ax + 1] = s.M, s.ncart
                     blk = blk * s.cont_norm.reshape(shp)
                 blk = blk.reshape(ref.shape)
+                if not float((np.abs(blk - ref) / scale).max()) <= TOL:  # error of the documented orientation policy, for the classifier
+                    pb = policy_block(shells, cm.build(shells))
+                    if pb is not None:
+                        for ax, s in enumerate(rs):
+                            shp = [1] * 8
+                            shp[2 * ax], shp[2 * ax + 1] = s.M, s.ncart
+                            pb = pb * s.cont_norm.reshape(shp)
+                        far = scale < FAR * max(float(scale.max()), 1e-2)
+                        with np.errstate(all="ignore"):
+                            pe = np.where(far, 0.0, np.abs(pb.reshape(ref.shape) - ref) / scale)
+                        info["policy_err"] = float(pe.max()) if np.all(np.isfinite(pe)) else 1e300
                 judge_eri(blk, ref, scale, "ERI block (%s; amplification exponent of the evaluated orientation %.1f, of the swapped one %.1f)" % (
                     "".join("spdf"[l] for l in info["ls"]), info["A_given"], info["A_swapped"]), "eri_kernel", viols, errs, info)
         nontrivial = sum(info["ls"]) >= 1 and float((np.abs(ref) / scale).max()) > 1e-8
@@ -352,14 +403,16 @@ def classify(case, v):
     A = v.get("A_total")
     if q in ("eri_kernel", "eri_chemist", "eri_physicist") and A is not None:
         if A >= A0 and v.get("err", 1.0) <= min(1e-2, 1e4 * EPS * float(np.exp(min(A, 60.0)))):
-            return "C04/recursion-amplification"
+            # ... and the library is not much worse than its own kernel in the documented orientation (see policy_block)
+            if v.get("policy_err") is None or v.get("err", 1.0) <= 10.0 * v["policy_err"]:
+                return "C04/recursion-amplification"
     return None
 
 
 def summarize(cases, results, counts, lists, tier):
     tup = {x for c in cases for x in c["classes"] if x.startswith("ls:")}
     b = lists.get("boys", [])
-    out = {"enumerated": {"angular-momentum 4-tuples 0..3": "%d of 256" % len(tup), "ill-conditioned quartets": "%d (x4 arrangements)" % len(ILL)},
+    out = {"enumerated": {"angular-momentum 4-tuples 0..3": "%d of 256" % len(tup), "ill-conditioned quartets": "%d (x6 arrangements)" % len(ILL)},
            "bound": "1e-6 * sqrt((ab|ab)(cd|cd))"}
     worst = sorted(((r.get("errs", {}).get("eri_kernel", 0.0), r["cid"], r.get("info", {})) for r in results), key=lambda x: -x[0])[:5]
     out["worst_kernel_cases"] = [{"err": w[0], "cid": w[1], **w[2]} for w in worst]
